@@ -108,6 +108,10 @@ def end_oracle(name, sim, case, engaged, user_ended, what):
         refpdu.parse_stream(sim.wire())
     except refpdu.RefError as exc:
         raise Violation('C13:wire-malformed', '%s (%s): %s' % (name, what, exc), case)
+    kinds_all = [getattr(i, 'pdu_type', 'dimse') for i in sim.indications()]
+    if kinds_all.count(7) > 1:
+        raise Violation('C13:told-twice', '%s (%s): the end of ONE association was indicated to the local user %d times (%r)'
+                        % (name, what, kinds_all.count(7), kinds_all), case)
     if engaged and not user_ended:
         kinds = [getattr(i, 'pdu_type', 'dimse') for i in sim.indications()]
         if not [k for k in kinds if k in (7, 3, 6)]:
